@@ -9,10 +9,12 @@ import Driver.Util
 import JanetModel.Bytecode.Exec
 import JanetModel.Emit.Cmd
 import JanetModel.Lang.Sem
+import JanetModel.Compile.Cmd
 open Driver JanetModel.Bytecode.Exec
 
 structure DState where
   defs : Array FuncDef := #[]
+  globs : List (String × JanetModel.Compile.Glob) := []
 
 def hexNat (s : String) : Nat := s.toList.foldl (fun acc c => acc * 16 + (hexVal c).getD 0) 0
 
@@ -105,7 +107,16 @@ def modLast (s : DState) (f : FuncDef → FuncDef) : DState :=
 def step (s : DState) (toks : List String) : DState × String :=
   match toks with
   | "emit" :: rest => (s, JanetModel.Emit.emitCmd rest)
-  | ["prog", _] => ({ defs := #[] }, "ok")
+  | ["prog", _] => ({ s with defs := #[] }, "ok")
+  | "glob" :: nm :: kind =>
+    let g : JanetModel.Compile.Glob := match kind with
+      | ["c"] => .cfun
+      | ["f", mn, mx, tag] => .func mn.toNat! mx.toNat! tag.toNat!
+      | _ => .other
+    ({ s with globs := (hexStr nm, g) :: s.globs }, "ok")
+  | "comp" :: _ :: toks =>
+    let (e, _) := parseExpr toks
+    (s, JanetModel.Compile.compCmd (fun x => (s.globs.find? (·.1 == x)).map (·.2)) e)
   | ["def", _, ar, mn, mx, sl, va, sa] =>
     ({ s with defs := s.defs.push { arity := ar.toNat!, minArity := mn.toNat!, maxArity := mx.toNat!, slotcount := sl.toNat!,
                                     vararg := va == "1", structarg := sa == "1" } }, "ok")
